@@ -304,6 +304,73 @@ func runC14(c *Ctx) {
 	}
 
 	// ---- R3 the tx handed to the callback is the one the work runs on
+	c.rule("C14-R4", "ERR/def-use: (a) a transaction is reported committed only when Commit said so: in every function that calls (*sql.Tx).Commit, a success return (nil) is reachable from the call only over its err == nil edge - `sql.ErrTxDone` from Commit also means the context watcher has rolled the whole transaction back, and swallowing it reports a rolled-back transaction as done; (b) nested levels have savepoints of their own: the text after `SAVEPOINT ` is not a constant (ROLLBACK TO leaves the savepoint on the stack, so a fixed name makes an inner level's leftover shadow the enclosing level's savepoint, and the enclosing level's rollback then keeps its earlier work)")
+	{
+		n := 0
+		for _, fn := range c.srcFuncs(dbPkg) {
+			k := 0
+			eachInstr(fn, func(_ *ssa.BasicBlock, _ int, ins ssa.Instruction) {
+				cl, ok := ins.(*ssa.Call)
+				if !ok || callName(cl) != "database/sql.Tx.Commit" {
+					return
+				}
+				k++
+				n++
+				bad := false
+				var bpath []*ssa.BasicBlock
+				for _, b := range fn.Blocks {
+					for si, succ := range b.Succs {
+						if !nonNilOnEdge(b, si, cl) {
+							continue
+						}
+						q := &pathQuery{fn: fn, target: func(x ssa.Instruction) bool {
+							r, ok := x.(*ssa.Return)
+							if !ok || len(r.Results) == 0 {
+								return false
+							}
+							return isNilConst(stripConv(retVals(r)[len(r.Results)-1]))
+						}}
+						if h, p := q.from(succ, 0); h != nil {
+							bad, bpath = true, p
+						}
+					}
+				}
+				c.ob("C14-R4", fnKey(fn)+"#success-only-when-commit-succeeded-"+itoa(k), cl.Pos(), !bad, "after Commit returned an error the function can still report success: `ErrTxDone` is also what Commit answers when the context ended and database/sql rolled everything back - the caller is told the work is committed when none of it is", c.blockPath(bpath)...)
+			})
+		}
+		c.Sites["C14-R4#commits"] = n
+		ns := 0
+		for _, fn := range c.srcFuncs(dbPkg) {
+			k := 0
+			eachInstr(fn, func(_ *ssa.BasicBlock, _ int, ins ssa.Instruction) {
+				bo, ok := ins.(*ssa.BinOp)
+				if !ok || bo.Op != token.ADD {
+					return
+				}
+				pre, ok := constString(bo.X)
+				if !ok || strings.TrimSpace(pre) != "SAVEPOINT" {
+					return
+				}
+				k++
+				ns++
+				_, isConst := constString(bo.Y)
+				fromCounter := derivesFrom(bo.Y, func(v ssa.Value) bool {
+					switch y := v.(type) {
+					case *ssa.Call:
+						return strings.HasPrefix(callName(y), "sync/atomic.") || strings.HasPrefix(callName(y), "strconv.") || strings.HasPrefix(callName(y), "fmt.Sprint")
+					case *ssa.UnOp:
+						_, _, isField := fieldOf(y.X)
+						return isField
+					}
+					return false
+				})
+				c.ob("C14-R4", fnKey(fn)+"#savepoint-name-per-level-"+itoa(k), bo.Pos(), !isConst && fromCounter, "the savepoint of a nested transaction has a fixed name: after an inner level rolled back to it (which leaves it on the stack) the enclosing level's `ROLLBACK TO` finds the inner leftover first, and work the enclosing level did before the inner one survives its rollback")
+			})
+		}
+		c.Sites["C14-R4#savepoints"] = ns
+		c.floor("C14-R4", 4)
+	}
+
 	c.rule("C14-R3", "def-use: every context key under which a *sql.Tx is stored with context.WithValue in pkg/database is read back (ctx.Value(key)) somewhere in the package; a key that is written and never read means ORM calls inside ORM.Transaction's callback run on the pool, outside the transaction")
 	type keyUse struct {
 		pos   token.Pos
